@@ -167,7 +167,11 @@ func (g *gctx) genCls() *Node {
 	for i := 0; i < parts; i++ {
 		switch x := g.r.Intn(10); {
 		case x < 5:
-			sb.WriteString(escClassRune(g.alphaRune()))
+			ch := g.alphaRune()
+			if g.p.FoldSafe && ic && ch == "\u212a" {
+				ch = "k" // the Kelvin sign in a class with i is the C15 finding (table vs general procedure)
+			}
+			sb.WriteString(escClassRune(ch))
 		case x < 8:
 			ranges := []string{"a-c", "A-C", "a-z", "A-Z", "0-9", "b-x"}
 			if !g.p.FoldSafe || !ic {
@@ -176,7 +180,11 @@ func (g *gctx) genCls() *Node {
 			sb.WriteString(ranges[g.r.Intn(len(ranges))])
 		default:
 			if g.p.FoldSafe && ic {
-				sb.WriteString(escClassRune(g.alphaRune()))
+				ch := g.alphaRune()
+				if ch == "\u212a" {
+					ch = "k"
+				}
+				sb.WriteString(escClassRune(ch))
 			} else {
 				cl := classPool[g.r.Intn(len(classPool))]
 				if len(cl) == 1 && g.pct(50) {
